@@ -85,7 +85,7 @@ def funcs():
         # non-canonical list whose element size is bytes + pointer units; exactly 2 elements (1 is right by accident), strings <= 1 byte
         Func("f-list-rxs-out", [], lst(RXS), "list-record-u64-string-result", fixed_l=2, max_s=1),
         Func("f-list-rxs-in", [("x", lst(RXS))], None, "list-record-u64-string-param", fixed_l=2, max_s=1),
-        rt("list-alias-tuple-u8-u32-u8", lst(TRIPLE)), rt("list-record-u8-tuple-u8-u64-u16", lst(RT)),
+        rt("list-alias-tuple-u8-u32-u8", lst(TRIPLE)), rt("list-record-u8-tuple-u8-u64-u16", lst(RT), max_l=2),   # 3 elements of 32 bytes: CBMC is killed at the 12 GB cap
         Func("f-borrow-exported-alias", [("x", borrow(TALLY))], U32, "borrow-exported-alias"),
     ]
     return fs
@@ -125,11 +125,11 @@ def configs(tier, seed):
     alt = {"name": "borrowing-std-rawstrings-merge", "std": True, "resources": False, "bitflags": False,
            "opts": {"ownership": "borrowing", "std_feature": "true", "raw_strings": "true", "merge_structurally_equal_types": "true"},
            "classes": ALT_CLASSES}
-    if tier != "thorough":
-        return [base, alt]
     # maps: default map type (BTreeMap) only, concrete entry counts 0 and 1.  HashMap (map_type=std::collections::HashMap):
     # a single concrete entry does not finish in 600 s of CBMC (RandomState / SipHash, 12 foreign functions) -> outside the claim
     maps = {"name": "maps-btreemap", "opts": {}, "std": False, "classes": None, "resources": False, "bitflags": True, "world": "maps"}
+    if tier != "thorough":
+        return [base, alt, maps]
     out = [base, maps]
     for own_ in ("owning", "borrowing"):
         for std in (False, True):
